@@ -383,6 +383,20 @@ def oracles_sync(op, S0, S1, out, hist, stats):
                             dkind = "%s%s->%s" % (type(b).__name__, "-empty" if b == "" and isinstance(b, str) else "", type(a).__name__)
                             v.append(viol("C09", "A2-default", op, "%s.%s default is %r, truth says %r" % (name, nme, a, b), dkind=dkind, **common))
                             break
+            # A3 only where sync actually wrote the definition (F01: existing function-kind targets are never rewritten)
+            if before_bytes_differ(S0, S1, f):
+                ftype = None
+                b_tree = _tree(S0.get(f))
+                if b_tree is not None and kind != "class":
+                    rb = resolver.resolve(b_tree, path)
+                    if rb is not None and isinstance(rb["node"], ast.FunctionDef):
+                        a0 = rb["node"].args.args[0].arg if rb["node"].args.args else None
+                        ftype = a0 if a0 in ("self", "cls") else "static"
+                st, detail = a3_check(op, kind, name, node, op["truth"], truth["node"], ftype)
+                stats.setdefault("a3", {})
+                stats["a3"][st.split(":")[0]] = stats["a3"].get(st.split(":")[0], 0) + 1
+                if detail is not None:
+                    v.append(viol("C09", "A3-" + st, op, "%s in %s: %s" % (name, f, detail), **common))
         # C11 - conservation of everything else
         before = S0.get(f)
         if before is not None and before != after and not is_truth:
@@ -391,6 +405,76 @@ def oracles_sync(op, S0, S1, out, hist, stats):
                 stats["c11_checked"] = stats.get("c11_checked", 0) + 1
                 v += c11_compare(op, f, path, kind, t_before, t_after, common, stats)
     return v
+
+
+# ---------------------------------------------------------------- C09 A3 (types, prose, defaults, return entry)
+def _dt_parse(kind, node):
+    """doctrans' own parser of `kind` applied to a fresh copy of `node`"""
+    node = copy.deepcopy(node)
+    p = _ns.parse
+    if kind == "class":
+        return p.class_(node)
+    if kind == "argparse_function":
+        return p.argparse_ast(node)
+    return p.function(node)
+
+
+def _dt_emit(kind, ir, name, ftype):
+    e = _ns.emit
+    ir = copy.deepcopy(ir)
+    if kind == "class":
+        return e.class_(ir, class_name=name.split(".")[-1])
+    if kind == "argparse_function":
+        return e.argparse_function(ir, function_name=name.split(".")[-1], function_type=ftype)
+    return e.function(ir, function_name=name.split(".")[-1], function_type=ftype)
+
+
+def _iface(ir):
+    """The comparable part of an IR: summary, parameters (typ / doc / default with type), return entry."""
+    def entry(d):
+        d = d or {}
+        typ = "".join((d.get("typ") or "").replace('"', "'").split())
+        doc = " ".join((d.get("doc") or "").split())
+        dv = d.get("default", "<absent>")
+        return [typ, doc, [type(dv).__name__, dv if isinstance(dv, (str, int, float, bool)) or dv is None else repr(dv)]]
+
+    out = {"doc": " ".join((ir.get("doc") or "").split()), "params": [[n, entry(d)] for n, d in (ir.get("params") or {}).items()]}
+    r = (ir.get("returns") or {}).get("return_type") if ir.get("returns") else None
+    out["returns"] = entry(r) if r else None
+    return out
+
+
+def a3_check(op, kind, name, target_node, truth_kind, truth_node, ftype):
+    """A3: what sync left in the target file must describe the same interface as the in-memory pipeline
+    parse_target(emit_target(parse_truth(truth))) - i.e. going through files adds no loss or change beyond the
+    in-memory conversion (DESIGN §3.4).  Returns (status, detail)."""
+    try:
+        truth_ir = _dt_parse(truth_kind, truth_node)
+        ref_node = _dt_emit(kind, truth_ir, name, ftype)
+        ref_node = ast.parse(_ns.st.to_code(ref_node)).body[0]
+        ref_ir = _dt_parse(kind, ref_node)
+    except Exception as e:
+        return "skipped-reference-raises:%s" % type(e).__name__, None
+    try:
+        got_ir = _dt_parse(kind, target_node)
+    except Exception as e:
+        return "target-unparseable-by-doctrans", "doctrans' own %s parser raises %s on the synchronised target" % (kind, type(e).__name__)
+    a, b = _iface(got_ir), _iface(ref_ir)
+    if a == b:
+        return "ok", None
+    if [n for n, _ in a["params"]] != [n for n, _ in b["params"]]:
+        return "names", "parameters %r, in-memory reference %r" % ([n for n, _ in a["params"]], [n for n, _ in b["params"]])
+    for (n, x), (_, y) in zip(a["params"], b["params"]):
+        for idx, what in ((0, "type"), (1, "prose"), (2, "default")):
+            if x[idx] != y[idx]:
+                return what, "%s: %s %r in the file, %r by the in-memory conversion" % (n, what, x[idx], y[idx])
+    if a["returns"] != b["returns"]:
+        return "returns", "return entry %r in the file, %r by the in-memory conversion" % (a["returns"], b["returns"])
+    return "summary", "summary %r in the file, %r by the in-memory conversion" % (a["doc"], b["doc"])
+
+
+def before_bytes_differ(S0, S1, f):
+    return S0.get(f) != S1.get(f)
 
 
 def c11_compare(op, f, path, kind, t_before, t_after, common, stats):
